@@ -88,3 +88,76 @@ Proof.
 Qed.
 
 Print Assumptions generic_pipeline_is_closed_form.
+
+(* ---- production barrier after the repair of Bprime_q2 (Pipeline0.v: Bprime_q2_abs) ---- *)
+Lemma Bprime_q2_abs_eq_old L q2 q02 d :
+  0 <= bp L (q02 * d ^ 2) -> Bprime_q2_abs L q2 q02 d = Bprime_q2 L q2 q02 d.
+Proof.
+  intros H. unfold Bprime_q2_abs, Bprime_q2, bp_ratio_abs, bp_ratio. rewrite (Rabs_pos_eq _ H). reflexivity.
+Qed.
+
+Lemma Bprime_q2_abs_inside L q2 q02 d : (L <= 8)%nat -> 0 <= q02 -> Bprime_q2_abs L q2 q02 d = Bprime_q2 L q2 q02 d.
+Proof.
+  intros HL H. apply Bprime_q2_abs_eq_old. apply Rlt_le, bp_pos; [assumption|].
+  apply Rmult_le_pos; [assumption|apply pow2_ge_0].
+Qed.
+
+(* the event-dependent Blatt-Weisskopf shape 1/sqrt(P_L(q^2 d^2)) is present for EVERY nominal mass *)
+Lemma Bprime_q2_abs_shape L q2 q02 d :
+  (L <= 8)%nat -> 0 <= q2 -> bp L (q02 * d ^ 2) <> 0 ->
+  Bprime_q2_abs L q2 q02 d = sqrt (Rabs (bp L (q02 * d ^ 2))) / sqrt (bp L (q2 * d ^ 2)).
+Proof.
+  intros HL Hq Hn. unfold Bprime_q2_abs, bp_ratio_abs.
+  assert (Hd : 0 < bp L (q2 * d ^ 2)) by (apply bp_pos; [assumption|apply Rmult_le_pos; [assumption|apply pow2_ge_0]]).
+  assert (Ha : 0 < Rabs (bp L (q02 * d ^ 2))) by (apply Rabs_pos_lt; exact Hn).
+  destruct (Rlt_dec 0 (Rabs (bp L (q02 * d ^ 2)) / bp L (q2 * d ^ 2))) as [_|N].
+  - apply sqrt_div_alt. exact Hd.
+  - exfalso. apply N. apply Rdiv_lt_0_compat; assumption.
+Qed.
+
+(* the code before the repair dropped it: J = 1, d = 3, q0^2 = -1 (P_1 = 1 + z = -8 < 0), q^2 = 1 *)
+Lemma bp_1 z : bp 1 z = z + 1.
+Proof. unfold bp, polyval. cbn [bprime_table map fold_left]. ring. Qed.
+
+Lemma Bprime_q2_old_drops_denominator :
+  Bprime_q2 1 1 (-1) 3 = 1 /\ Bprime_q2_abs 1 1 (-1) 3 = sqrt (8 / 10).
+Proof.
+  split.
+  - unfold Bprime_q2, bp_ratio. rewrite !bp_1.
+    destruct (Rlt_dec 0 ((-1 * 3 ^ 2 + 1) / (1 * 3 ^ 2 + 1))) as [P|_]; [exfalso; lra|apply sqrt_1].
+  - unfold Bprime_q2_abs, bp_ratio_abs. rewrite !bp_1.
+    replace (-1 * 3 ^ 2 + 1) with (-8) by ring. replace (1 * 3 ^ 2 + 1) with 10 by ring.
+    rewrite Rabs_left by lra. replace (- -8) with 8 by ring.
+    destruct (Rlt_dec 0 (8 / 10)) as [_|N]; [reflexivity|exfalso; lra].
+Qed.
+
+Theorem Bprime_q2_old_shape_refuted :
+  exists L q2 q02 d, (L <= 4)%nat /\ 0 < q2 /\ bp L (q02 * d ^ 2) <> 0 /\
+    Bprime_q2 L q2 q02 d <> sqrt (Rabs (bp L (q02 * d ^ 2))) / sqrt (bp L (q2 * d ^ 2)).
+Proof.
+  exists 1%nat, 1, (-1), 3. split; [lia|]. split; [lra|].
+  assert (Hn : bp 1 (-1 * 3 ^ 2) <> 0) by (rewrite bp_1; lra).
+  split; [exact Hn|].
+  rewrite <- (Bprime_q2_abs_shape 1 1 (-1) 3) by (try lia; try lra; exact Hn).
+  destruct Bprime_q2_old_drops_denominator as [A B]. rewrite A, B.
+  intros E. assert (H : sqrt (8 / 10) * sqrt (8 / 10) = 8 / 10) by (apply sqrt_sqrt; lra).
+  rewrite <- E in H. lra.
+Qed.
+
+Lemma res_amp_core_abs_eq_old c J q2 q02 p p0 m0R g0R d mR cth :
+  0 <= bp J (q02 * d ^ 2) ->
+  res_amp_core_abs c J q2 q02 p p0 m0R g0R d mR cth = res_amp_core c J q2 q02 p p0 m0R g0R d mR cth.
+Proof. intros H. unfold res_amp_core_abs, res_amp_core. rewrite (Bprime_q2_abs_eq_old _ _ _ _ H). reflexivity. Qed.
+
+(* the generic pipeline (Amp/Chain.v, barrier of the code before the repair) is the repaired closed form wherever the two
+   barriers agree: every nominal mass inside the kinematic limit (q0^2 >= 0) and, beyond it, as long as P_J(q0^2 d^2) >= 0 *)
+Theorem generic_pipeline_is_closed_form_abs J (g1 g2 : C) q2 q02 p p0 d mR m0R g0R phi1 th1 phi2 th2 :
+  (J <= 4)%nat -> 0 < p -> 0 < p0 -> 0 <= bp J (q02 * d ^ 2) ->
+  generic_chain0 J g1 g2 q2 q02 (p ^ 2) (p0 ^ 2) d (BWR mR m0R g0R p p0 J d) phi1 th1 phi2 th2
+  = res_amp_core_abs (Cmul g1 g2) J q2 q02 p p0 m0R g0R d mR (cos th2).
+Proof.
+  intros HJ Hp Hp0 Hb. rewrite (res_amp_core_abs_eq_old _ _ _ _ _ _ _ _ _ _ _ Hb).
+  apply generic_pipeline_is_closed_form; assumption.
+Qed.
+Print Assumptions generic_pipeline_is_closed_form_abs.
+Print Assumptions Bprime_q2_old_shape_refuted.
